@@ -121,6 +121,8 @@ type c05Case struct {
 	Chunks  []int  `json:"chunks"`
 	PauseMs int    `json:"pause_ms"`
 	SSE     bool   `json:"sse"`
+	CL      bool   `json:"declared_content_length"` // body framed by Content-Length but still produced piece by piece
+	HTML    bool   `json:"html"`                    // text/html response through the agent configured with the websocket shim
 	Class   string `json:"class"`
 }
 
@@ -156,6 +158,7 @@ func C05(r *core.Run) {
 	scripts := map[string]c05Case{}
 	outcomes := map[string]*c05Outcome{}
 	bound := map[string]time.Duration{}
+	var pxFor func(c c05Case) *fakes.Proxy
 	getInner := func(id string) *c05Inner {
 		mu.Lock()
 		defer mu.Unlock()
@@ -190,17 +193,38 @@ func C05(r *core.Run) {
 		out := &c05Outcome{c: c, missedAt: -1}
 		var w rawhttp.Builder
 		w.Line("HTTP/1.1 200 OK")
-		if c.SSE {
+		switch {
+		case c.HTML:
+			w.Field("Content-Type", "text/html; charset=utf-8")
+		case c.SSE:
 			w.Field("Content-Type", "text/event-stream")
-		} else {
+		default:
 			w.Field("Content-Type", "application/octet-stream")
 		}
-		w.Field("Transfer-Encoding", "chunked").End()
+		if c.CL {
+			tot := 0
+			for _, n := range c.Chunks {
+				tot += n
+			}
+			w.Field("Content-Length", fmt.Sprint(tot)).End()
+		} else {
+			w.Field("Transfer-Encoding", "chunked").End()
+		}
 		conn.Write(w.Bytes())
 		var sent int64
 		for i, n := range c.Chunks {
 			var cw rawhttp.Builder
-			cw.Chunk(tokBytes(id, fmt.Sprint(i), n))
+			piece := tokBytes(id, fmt.Sprint(i), n)
+			if c.HTML {
+				for k := range piece { // printable filler without a <head> tag
+					piece[k] = "abcdefghij klmnop<>/"[int(piece[k])%20]
+				}
+			}
+			if c.CL {
+				cw.Write(piece)
+			} else {
+				cw.Chunk(piece)
+			}
 			t0 := time.Now()
 			if _, err := conn.Write(cw.Bytes()); err != nil {
 				out.err = err.Error()
@@ -219,10 +243,12 @@ func C05(r *core.Run) {
 			}
 		}
 		if out.missedAt < 0 && out.err == "" {
-			var cw rawhttp.Builder
-			cw.LastChunk(nil)
-			conn.Write(cw.Bytes())
-			if _, ok := px.Wait(id, T); ok {
+			if !c.CL {
+				var cw rawhttp.Builder
+				cw.LastChunk(nil)
+				conn.Write(cw.Bytes())
+			}
+			if _, ok := pxFor(c).Wait(id, T); ok {
 				out.completed = true
 			}
 		}
@@ -242,6 +268,32 @@ func C05(r *core.Run) {
 		r.Finish(1)
 	}
 	defer agent.Kill()
+	// a second agent configured with the websocket shim (its ModifyResponse hook touches HTML responses)
+	px2, err := fakes.NewProxy()
+	if err != nil {
+		r.Broken(err.Error())
+		r.Finish(1)
+	}
+	defer px2.Close()
+	px2.ListWait = 100 * time.Millisecond
+	px2.OnResponse = func(id string, w http.ResponseWriter, req *http.Request) bool {
+		in := getInner(id)
+		px2.AcceptUpload(id, w, req, in.feed)
+		in.finish()
+		return true
+	}
+	agent2, err := startAgent(r, agentBin, "agent-shim", md, px2.URL(), backend.Addr(), "b5s", "--shim-websockets=true", "--shim-path=shim")
+	if err != nil {
+		r.Broken(err.Error())
+		r.Finish(1)
+	}
+	defer agent2.Kill()
+	pxFor = func(c c05Case) *fakes.Proxy {
+		if c.HTML {
+			return px2
+		}
+		return px
+	}
 
 	rng := r.Rand("c05")
 	n := r.Pick(48, 640)
@@ -270,7 +322,31 @@ func C05(r *core.Run) {
 			}
 			c.Chunks = append(c.Chunks, s)
 		}
-		c.Class = fmt.Sprintf("n=%d|max=%s|mix=%v|pause=%d|sse=%v", cnt, sizeClass(maxSz), szClass >= len(sizes), c.PauseMs, c.SSE)
+		switch i % 5 {
+		case 1:
+			c.CL, c.SSE = true, false
+			if i%10 == 1 {
+				// a small declared length produced in several pieces (total <= 2 KiB)
+				c.Chunks = nil
+				maxSz = 0
+				for k, tot := 0, 0; k < 2+rng.Intn(7); k++ {
+					n := []int{1, 20, 64, 100, 256}[rng.Intn(5)]
+					if tot+n > 2000 {
+						break
+					}
+					tot += n
+					if n > maxSz {
+						maxSz = n
+					}
+					c.Chunks = append(c.Chunks, n)
+				}
+				cnt = len(c.Chunks)
+			}
+		case 3:
+			c.HTML, c.SSE = true, false
+			c.CL = i%10 == 3
+		}
+		c.Class = fmt.Sprintf("n=%d|max=%s|mix=%v|pause=%d|sse=%v|cl=%v|shim-html=%v", cnt, sizeClass(maxSz), szClass >= len(sizes), c.PauseMs, c.SSE, c.CL, c.HTML)
 		cases = append(cases, c)
 	}
 	run := func(cs []c05Case, T time.Duration, par int) {
@@ -290,7 +366,7 @@ func C05(r *core.Run) {
 				defer func() { <-sem }()
 				var w rawhttp.Builder
 				w.Line("GET /c05/" + c.ID + " HTTP/1.1").Field("Host", "c05.example").Field("Accept-Encoding", "identity").End()
-				px.Enqueue(c.ID, w.Bytes(), "")
+				pxFor(c).Enqueue(c.ID, w.Bytes(), "")
 				// wait for the backend side to finish the script
 				deadline := time.Now().Add(T*time.Duration(len(c.Chunks)+2) + 10*time.Second)
 				for time.Now().Before(deadline) {
@@ -353,7 +429,7 @@ func C05(r *core.Run) {
 			total += int64(s)
 		}
 		// totals equal
-		ups := px.Uploads(out.c.ID)
+		ups := pxFor(c).Uploads(out.c.ID)
 		if len(ups) > 0 && ups[len(ups)-1].Resp != nil {
 			var want int
 			for _, s := range c.Chunks {
@@ -373,8 +449,9 @@ func C05(r *core.Run) {
 	}
 	r.Set("chunks_observed_in_lock_step", len(lat))
 	r.Set("body_bytes_streamed", total)
-	judgeProcs(r, true, agent)
+	judgeProcs(r, true, agent, agent2)
 	agent.Kill()
+	agent2.Kill()
 	r.JudgeRaces(core.ParseRaceLogs(filepath.Join(r.WorkDir, "race-")))
 	r.Finish(r.Pick(30, 400))
 }
